@@ -689,7 +689,7 @@ def brace_md_case(body: str, tag: str) -> Optional[Case]:
                 nontrivial=any(ch.isdigit() for ch in body), tags=["parse-via-md-" + tag])
 
 
-SCAN_TIME_LIMIT = 5.0
+SCAN_TIME_LIMIT = 30.0   # generous: the linear pattern needs milliseconds, the exponential one hours; 30 s tolerates a loaded machine
 
 
 def _scan_worker(text: str, q: Any) -> None:
